@@ -184,6 +184,12 @@ pub fn bytes_to_felts_compact(input: &[u8]) -> Result<Vec<F>, &'static str> {
     )
 }
 
+/// Verification hook (off by default): public entry to the crate-private compact hash.
+#[cfg(feature = "verif-hooks")]
+pub fn verif_hash_bytes_compact(input: &[u8]) -> Result<[u8; 32], &'static str> {
+    hash_bytes_compact(input)
+}
+
 /// Hash bytes with Poseidon2 using compact (8 bytes/felt) encoding.
 ///
 /// The compact encoding zero-pads the final 8-byte chunk, so on unaligned
